@@ -622,7 +622,7 @@ Definition c13_exemptions : list exemption :=
   [ExHandshakePhase; ExField "dtlcp" OConn "remoteAddr"].
 
 (* Fields that FAIL the discipline: reported as findings, proved to fail, not argued away. *)
-Definition c13_findings : list finding :=
-  [ mkFinding "F17" "pa" OPa "wrapped" ].              (* Read/Write/ProtectedConn read wrapped outside detect's mutex *)
-(* F16 (Close zeroed workKey with no lock and no guard) and F28 (PeerCertificates() read without
-   handshakeMutex) were on this list until they were fixed in the library. *)
+Definition c13_findings : list finding := [].
+(* F16 (Close zeroed workKey with no lock and no guard), F28 (PeerCertificates() read without
+   handshakeMutex) and F17 (pa Read / Write / ProtectedConn read `wrapped` outside detect's mutex) were on
+   this list until they were fixed in the library. *)
